@@ -307,7 +307,8 @@ def read_graph(pkl):
     inst = []
     for k in names:
         r = dag.values[k]
-        inst.append({"name": k, "parents": sorted(parents[k]), "ws": os.path.realpath(r.workspace.value),
+        inst.append({"name": k, "step_name": str(r.step.name), "parents": sorted(parents[k]),
+                     "ws": os.path.realpath(r.workspace.value),
                      "has_restart": bool(r.step.run.get("restart")), "rlimit": int(r.restart_limit),
                      "params": {str(a): str(b) for a, b in r.params.items()},
                      "state": r.status.name, "jobs": [str(j) for j in r.jobid], "restarts": int(r.restarts)})
@@ -821,6 +822,8 @@ def translate_scripted(case, d, res):
     pending_cancel = None
     for e in entries:
         c = e["call"]
+        if c == "poll":
+            continue
         if c == "cancel_jobs":
             pending_cancel = [jobno.get(str(j), 900 + len(jobno)) for j in e["jobs"]]
             continue
